@@ -279,24 +279,23 @@ Fixpoint c_get (c : cview) (idx : list N) : option (N * N) :=
 
 (* ---------- data_layout ---------- *)
 
-(* TensorTranspose::data_layout.
-   AS WRITTEN (src/tensors/indexing.rs:1570-1580 with dimensions.rs:160-186):
-     Linear(order) => Linear(from_fn(|d| order[source_to_requested[d]]))
+(* TensorTranspose::data_layout -> DimensionMappings::map_linear_data_layout_to_transposed.
+   NOW (after fix 6660492 of defect F13, found by this property's correspondence check):
+     from_fn(|d| match source.iter().position(|(name, _)| *name == order[d]) {
+         Some(p) => source[self.source_to_requested[p]].0, None => order[d] })
+   BEFORE the fix (kept as a regression fact, `c_layout_gen true`; Model/Shape.v still holds this
+   old `map_linear_data_layout_to_transposed`):  from_fn(|d| order[source_to_requested[d]])
    which is only right when `order` equals the names of the source's view_shape in order (a plain
-   Tensor source); over a source whose memory order differs from its shape order (a TensorAccess,
-   a transposition, a column-major matrix) the claimed order is wrong: KNOWN DEFECT D1, see
-   /verif/notes/C02.md and Proofs/C02P.v (transpose_layout_as_written_refuted).
-   DEMANDED (what the model uses; the same position-based renaming TensorRename::data_layout does):
-   the dimension the source calls order[i] sits at position p of the source shape, is requested at
-   position source_to_requested[p], and the transposition names that position names[s2r[p]]. *)
+   Tensor source); see Proofs/C02P.v (transpose_layout_as_written_refuted) and notes/C02.md. *)
 Definition transpose_layout_as_written (tbl : list (nat * nat)) (order : list name) : list name :=
   map_linear_data_layout_to_transposed tbl order.
-Definition transpose_layout (sh : shape) (tbl : list (nat * nat)) (order : list name)
-  : option (list name) :=
-  option_map (map (fun p => nth (nth p (dm_s2r tbl) 0%nat) (names_of sh) 0%nat))
-             (sequence (map (position_of sh) order)).
+Definition transpose_layout (sh : shape) (tbl : list (nat * nat)) (order : list name) : list name :=
+  map (fun n => match position_of sh n with
+                | Some p => nth (nth p (dm_s2r tbl) 0%nat) (names_of sh) 0%nat
+                | None => n
+                end) order.
 
-(* as_written = true: the transcription of today's code; false: the demanded behaviour *)
+(* as_written = true: the transcription of the code BEFORE fix 6660492; false: the code now *)
 Fixpoint c_layout_gen (as_written : bool) (c : cview) : outcome layout :=
   match c with
   | CTensor _ sh _ => Ok (Linear (names_of sh))
@@ -318,10 +317,7 @@ Fixpoint c_layout_gen (as_written : bool) (c : cview) : outcome layout :=
       match c_layout_gen as_written c with
       | Ok (Linear order) =>
           if as_written then Ok (Linear (transpose_layout_as_written tbl order))
-          else match transpose_layout (c_shape c) tbl order with
-               | Some o => Ok (Linear o)
-               | None => Panic
-               end
+          else Ok (Linear (transpose_layout (c_shape c) tbl order))
       | other => other
       end
   | CWrap c => c_layout_gen as_written c
